@@ -1024,7 +1024,7 @@ theorem rstep_printValue (he : EnvRel pub env1 env2) (S : RSpec pub env1 env2 n)
   · -- pointer
     split
     · have g := hpo.wb 0x26
-      exact S.printValue _ _ _ _ _ _ _ g.1 g.2 (by simpa [ValOk] using hv) (secAt_ptrTo hs)
+      exact S.printSlot _ _ _ _ _ _ _ _ g.1 g.2 (by simpa [ValOk] using hv) (secAt_ptrTo hs)
     · exact RR_unsupported _
   · exact RR_unsupported _
   · exact RR_unsupported _
